@@ -206,7 +206,7 @@ def exact_system_eval(spec, xvals: dict):
     return env
 
 
-def random_loop_system(rng, size=2, name='loop', max_level=2, downstream=True, nonlinear=False, extra=False, log=None):
+def random_loop_system(rng, size=2, name='loop', max_level=2, downstream=True, nonlinear=False, extra=False, log=None, norms=False):
     """A feedback loop of `size` components: comp i computes u_i = c_i + sum_j A_ij * u_j (+ quadratic term if nonlinear)
     + b_i * x_i, with a contraction matrix A (row sums < 0.6); optionally a downstream component reading u_0.
     Returns (system, spec) with spec['A'], spec['b'], spec['c'] as Fractions for the exact linear solve."""
@@ -223,8 +223,9 @@ def random_loop_system(rng, size=2, name='loop', max_level=2, downstream=True, n
     b = [Fraction(rng.choice([1, 2, -1]), 2) for _ in range(size)]
     c = [Fraction(rng.randint(-2, 2), 2) for _ in range(size)]
     variables = {f'x{i}': Variable(f'x{i}', distribution='U(0, 1)') for i in range(size)}
+    nrng = random.Random(rng.random()) if norms else None       # coupling variables with a (time-stable) normalisation
     for i in range(size):
-        variables[f'u{i}'] = Variable(f'u{i}', domain=(-6.0, 6.0))
+        variables[f'u{i}'] = Variable(f'u{i}', domain=(-6.0, 6.0), norm=(nrng.choice([None, 'linear(0.5, 1)', 'zscore(1, 2)']) if norms else None))
     comps = []
     for i in range(size):
         ins = [f'x{i}'] + [f'u{j}' for j in range(size) if A[i][j] != 0]
@@ -239,7 +240,9 @@ def random_loop_system(rng, size=2, name='loop', max_level=2, downstream=True, n
             tot = _c
             for n_, k_ in zip(_ins, _coef):
                 tot = tot + k_ * np.asarray(inputs[n_], dtype=float)
-            if _nl:
+            if _nl == 'rough':      # not a polynomial: a surrogate of it is never exact (for checks that must tell model and surrogate apart)
+                tot = tot + 0.05 * np.sin(3.0 * np.asarray(inputs[_ins[1]], dtype=float))
+            elif _nl:
                 tot = tot + 0.02 * np.asarray(inputs[_ins[1]], dtype=float) ** 2
             ret = {_o: tot}
             if _ex:   # an output of a loop member that is not a coupling variable
